@@ -81,10 +81,15 @@ HARNESSES = [
     {"name": "verif_kani::meta_character_set", "props": ["C18"], "tier": "quick",
      "functions": ["is_meta_character", "is_contextual_meta_character"], "bounds": "every char",
      "stubs": [], "replay": "escape"},
-    {"name": "verif_kani::escape_one_char", "props": ["C18"], "tier": "quick",
-     "functions": ["escape"], "bounds": "every string of one char; unwind 6", "stubs": [], "replay": "escape"},
-    {"name": "verif_kani::escape_two_chars", "props": ["C18"], "tier": "thorough", "heavy": True,
-     "functions": ["escape"], "bounds": "every string of two chars; unwind 10", "stubs": [], "replay": "escape"},
+    {"name": "verif_kani::escape_meta_char", "props": ["C18"], "tier": "quick",
+     "functions": ["escape"], "bounds": "every one-character string that is a meta-character; unwind 6",
+     "stubs": [], "replay": "escape"},
+    {"name": "verif_kani::escape_non_meta_char", "props": ["C18"], "tier": "quick",
+     "functions": ["escape"], "bounds": "every one-character string of a non-meta char (all of char); unwind 6",
+     "stubs": [], "replay": "escape"},
+    {"name": "verif_kani::escape_two_non_meta_chars", "props": ["C18"], "tier": "thorough", "heavy": True,
+     "functions": ["escape"], "bounds": "every two-character string of non-meta chars (char x char); unwind 10",
+     "stubs": [], "replay": "escape"},
 ]
 
 
